@@ -557,6 +557,12 @@ def gen_struct(rng, n_records, kts=KT_ALL):
                            ("unsigned_dangling_list", orig + [{"x": [0xc0]}]), ("unsigned_last_value_missing", orig[:-1]),
                            ("unsigned_pair_prepended", [orig[0], {"s": [0x01]}, {"s": [2]}] + orig[1:])]:
             steps.append({"op": "decode", "kts": kts, "input": {"rec": {"items": items, "sig": {"by": rec["by"], "over": orig}}}, "tag": tag})
+        # a pair written twice, verbatim, while the signature covers the record with the pair once: a decoder that lets equal
+        # keys through and keeps one of the two values reconstructs exactly the signed content (C02-m15); no random draws
+        npairs = (len(orig) - 1) // 2
+        for j in sorted({0, npairs // 2, npairs - 1}):
+            twice = orig[:1 + 2 * j] + orig[1 + 2 * j:3 + 2 * j] + orig[1 + 2 * j:]
+            steps.append({"op": "decode", "kts": kts, "input": {"rec": {"items": twice, "sig": {"by": rec["by"], "over": orig}}}, "tag": "unsigned_pair_twice"})
         out.append({"sid": sid(), "steps": steps})
     return out
 
